@@ -300,7 +300,7 @@ func TestC13_SeveralIntegrations(t *testing.T) {
 				for _, x := range topics {
 					l.Topics = append(l.Topics, eth.Bytes(x))
 				}
-				blk := eth.Block{Header: eth.Header{Number: 9, Hash: make([]byte, 32)}}
+				blk := eth.Block{Header: eth.Header{Number: 9, Hash: make([]byte, 32), LogsBloom: make([]byte, 256)}}
 				tx := eth.Tx{Idx: 0}
 				tx.Logs = append(tx.Logs, l)
 				blk.Txs = append(blk.Txs, tx)
@@ -428,7 +428,7 @@ func TestC13_StoredIntegrations(t *testing.T) {
 			for _, x := range topics {
 				l.Topics = append(l.Topics, eth.Bytes(x))
 			}
-			blk := eth.Block{Header: eth.Header{Number: 9, Hash: make([]byte, 32)}}
+			blk := eth.Block{Header: eth.Header{Number: 9, Hash: make([]byte, 32), LogsBloom: make([]byte, 256)}}
 			tx := eth.Tx{Idx: 0}
 			tx.Logs = append(tx.Logs, l)
 			blk.Txs = append(blk.Txs, tx)
